@@ -401,6 +401,26 @@ def meta_drop_after_rebuild(muts, exc_text):
     return False
 
 
+def permuted_family():
+    """deterministic family: composite indexes over the same columns in a different order are different
+    indexes - adding the reversed entry, or removing one of two permuted entries"""
+    import copy
+    spec = pair_family()[0][0]
+    meta = lambda prop, val: {'t': 'ChangeMeta', 'model': 'Book', 'prop': prop, 'py_value': val}
+    both = copy.deepcopy(spec)
+    both['apps'][0]['models'][0]['index_together'] = [['pages', 'rating'], ['rating', 'pages']]
+    both['apps'][0]['models'][0]['unique_together'] = [['title', 'year'], ['year', 'title']]
+    return [
+        (spec, [meta('index_together', [('pages', 'rating'), ('rating', 'pages')])]),
+        (spec, [meta('unique_together', [('title', 'year'), ('year', 'title')])]),
+        (spec, [meta('index_together', [('rating', 'pages')])]),
+        (both, [meta('index_together', [('rating', 'pages')])]),
+        (both, [meta('index_together', [('pages', 'rating')])]),
+        (both, [meta('unique_together', [('year', 'title')])]),
+        (both, [meta('unique_together', [('title', 'year')])]),
+    ]
+
+
 def family_case(spec, muts):
     sig = dbrig.sig_from_models(dbrig.build_models(spec))
     r = sigs.real_simulate(sig, 'vapp', [sigs.real_mutation(m) for m in muts])
@@ -476,7 +496,7 @@ def run(ctx):
     schema_reqs, schema_pend = [], []
     done = 0
     tries = 0
-    family = pk_family() + index_family() + pair_family()
+    family = pk_family() + index_family() + permuted_family() + pair_family()
     while done < n and tries < n * 4 and ctx.time_left() > 25:
         tries += 1
         if family:
